@@ -40,7 +40,7 @@ structure GRR where
   rdata : Option Bytes
   deriving Repr, DecidableEq, Inhabited
 
-structure GQR where
+@[ext] structure GQR where
   ts : Option Ts := none
   clientIp : Option Bytes := none
   clientPort : Option Nat := none
@@ -80,7 +80,7 @@ structure GQR where
   asn : Option Bytes := none
   countryCode : Option Bytes := none
   roundTripTime : Option Int := none
-  deriving Repr, Inhabited
+  deriving Repr, Inhabited, BEq
 
 structure GAEC where
   aeType : Nat
